@@ -804,6 +804,9 @@ struct Summary {
     mismatches: Vec<Value>,
     samples: Vec<Value>,
     covered: u64,
+    drift_count: u64,
+    drift_keys: BTreeMap<String, u64>,
+    drift_examples: Vec<Value>,
 }
 
 fn cmd_graph(level: &str, args: &[String]) {
@@ -907,6 +910,23 @@ fn cmd_graph(level: &str, args: &[String]) {
                 let e = &g.edges[*n][*j];
                 let o = obs.get(i).map(|o| norm(o, "")).unwrap_or(json!({"r":"missing"}));
                 if o != e.out {
+                    // a difference only in the detailed field (header bytes / low-level chunk kinds) is
+                    // judged by TLC afterwards (property level): candidate drift
+                    let detailed = if level == "lo" { "h" } else { "file" };
+                    let only_detailed = match (o.as_object(), e.out.as_object()) {
+                        (Some(a), Some(b)) => a.len() == b.len() && b.iter().all(|(k, v)| k == detailed || a.get(k) == Some(v)),
+                        _ => false,
+                    };
+                    if only_detailed {
+                        s.drift_count += 1;
+                        let key = format!("{}:{}:{}", level, e.act["a"].as_str().unwrap_or(""), class_of(level, &e.act, &e.out, None));
+                        let c = s.drift_keys.entry(key.clone()).or_insert(0);
+                        *c += 1;
+                        if *c == 1 && s.drift_examples.len() < 8 {
+                            s.drift_examples.push(json!({"key": key, "plan": plan, "step": i, "expected": e.out, "observed": o}));
+                        }
+                        continue;
+                    }
                     s.mismatch_count += 1;
                     let what = if o["r"] == "panic" { "panic".to_string() } else if o["r"] != e.out["r"] { format!("r={}", o["r"].as_str().unwrap_or("?")) } else { format!("field={}", first_diff(&e.out, &o)) };
                     let mut key = format!("{}:{}:{}:{}", level, what, e.act["a"].as_str().unwrap_or(""), class_of(level, &e.act, &e.out, path.get(i.wrapping_sub(1)).map(|(n, j)| &g.edges[*n][*j].act)));
@@ -960,7 +980,7 @@ fn cmd_graph(level: &str, args: &[String]) {
             .map(|_| {
                 sc.spawn(move || {
                     let mut ps = Payloads { cache: HashMap::new() };
-                    let mut s = Summary { paths: 0, steps: 0, nontrivial: 0, mismatch_count: 0, mismatch_keys: BTreeMap::new(), mismatches: Vec::new(), samples: Vec::new(), covered: 0 };
+                    let mut s = Summary { paths: 0, steps: 0, nontrivial: 0, mismatch_count: 0, mismatch_keys: BTreeMap::new(), mismatches: Vec::new(), samples: Vec::new(), covered: 0, drift_count: 0, drift_keys: BTreeMap::new(), drift_examples: Vec::new() };
                     loop {
                         let t = nref.fetch_add(1, Ordering::Relaxed);
                         if t >= tref.len() {
@@ -979,7 +999,7 @@ fn cmd_graph(level: &str, args: &[String]) {
             parts.push(h.join().expect("walker thread"));
         }
     });
-    let mut s = Summary { paths: 0, steps: 0, nontrivial: 0, mismatch_count: 0, mismatch_keys: BTreeMap::new(), mismatches: Vec::new(), samples: Vec::new(), covered: 0 };
+    let mut s = Summary { paths: 0, steps: 0, nontrivial: 0, mismatch_count: 0, mismatch_keys: BTreeMap::new(), mismatches: Vec::new(), samples: Vec::new(), covered: 0, drift_count: 0, drift_keys: BTreeMap::new(), drift_examples: Vec::new() };
     for p in parts {
         s.paths += p.paths;
         s.steps += p.steps;
@@ -1004,6 +1024,15 @@ fn cmd_graph(level: &str, args: &[String]) {
                 s.samples.push(x);
             }
         }
+        s.drift_count += p.drift_count;
+        for (k, v) in p.drift_keys {
+            *s.drift_keys.entry(k).or_insert(0) += v;
+        }
+        for x in p.drift_examples {
+            if !s.drift_examples.iter().any(|y| y["key"] == x["key"]) && s.drift_examples.len() < 8 {
+                s.drift_examples.push(x);
+            }
+        }
     }
     s.mismatches.truncate(report);
     summary["paths"] = json!(s.paths);
@@ -1014,6 +1043,9 @@ fn cmd_graph(level: &str, args: &[String]) {
     summary["mismatch_keys"] = json!(s.mismatch_keys);
     summary["mismatches"] = json!(s.mismatches);
     summary["samples"] = json!(s.samples);
+    summary["drift_count"] = json!(s.drift_count);
+    summary["drift_keys"] = json!(s.drift_keys);
+    summary["drift_examples"] = json!(s.drift_examples);
     println!("{}", summary);
 }
 
